@@ -21,11 +21,58 @@ package udp
 //@   modifies lastUntil
 //@   ensures [nil] err == nil
 
+// ---- listener demultiplexing (C11).  The table of connections is a monitor: every entry is registered under the textual
+// ---- form of its own remote address.  dispN / dispBuf: ghost log of the buffer writes dispatchMsg performs.
+//@ monitor listener connLock: conns
+//@ invariant (l *listener) keyed: l.conns != nil && (forall k string :: {k in l.conns} (k in l.conns) ==> l.conns[k] != nil && l.conns[k].rAddr != nil && addrStr[ref(l.conns[k].rAddr)] == k && l.conns[k].buffer != nil)
+//@ ghost global dispN mathint
+//@ ghost global dispBuf mathint
+//@ ghost global lastConn mathint
+
+//@ func (l *listener) newConn(rAddr net.Addr) (c *Conn)
+//@   ensures c != nil && fresh(c) && c.listener == l && c.rAddr == rAddr && c.buffer != nil && c.doneCh != nil && !closed(c.doneCh)
+
+//@ func (l *listener) getConn(raddr net.Addr, buf []byte) (c *Conn, ok bool, err error)
+//@   requires raddr != nil && l.acceptCh != nil
+//@   modifies lastConn
+//@   ensures [last] lastConn == ref(c)
+//@   ensures [known] atlock(addrStr[ref(raddr)] in l.conns) ==> ok && err == nil && c == atlock(l.conns[addrStr[ref(raddr)]]) && sent(l.acceptCh) == atlock(sent(l.acceptCh)) &&
+//@            (addrStr[ref(raddr)] in l.conns) && l.conns[addrStr[ref(raddr)]] == c
+//@   ensures [new] !atlock(addrStr[ref(raddr)] in l.conns) && ok ==> err == nil && fresh(c) && c.rAddr == raddr && c.listener == l && (addrStr[ref(raddr)] in l.conns) && l.conns[addrStr[ref(raddr)]] == c &&
+//@            sent(l.acceptCh) == atlock(sent(l.acceptCh)) + 1 && msg(l.acceptCh, lastsendon(l.acceptCh)) == c
+//@   ensures [refused] !ok ==> c == nil && !(addrStr[ref(raddr)] in l.conns) && sent(l.acceptCh) == atlock(sent(l.acceptCh))
+//@   ensures [full] err == ErrListenQueueExceeded ==> atlock(len(l.acceptCh) >= cap(l.acceptCh))
+//@   ensures [others] forall k string :: {k in l.conns} k != addrStr[ref(raddr)] ==> (k in l.conns) == atlock(k in l.conns) && l.conns[k] == atlock(l.conns[k])
+//@   ghost at return: lastConn = ref(c)
+
+// a datagram is written once, to the buffer of the connection registered for its sender, and to no other
+//@ func (l *listener) dispatchMsg(addr net.Addr, buf []byte)
+//@   requires addr != nil && l.acceptCh != nil
+//@   modifies lastConn, dispN, dispBuf
+//@   ensures [atmost] dispN == old(dispN) || dispN == old(dispN) + 1
+//@   ensures [to] dispN == old(dispN) + 1 ==> lastConn != 0 && dispBuf == ref(ptr(lastConn, *Conn).buffer) && addrStr[ref(ptr(lastConn, *Conn).rAddr)] == addrStr[ref(addr)]
+//@   ensures [each] lastConn != 0 ==> dispN == old(dispN) + 1
+//@   ghost before Write#1: dispN = dispN + 1; dispBuf = ref(conn.buffer)
+
+// Accept returns the connections in the order getConn queued them
+//@ func (l *listener) Accept() (c net.Conn, err error)
+//@   requires l.acceptCh != nil && l.readDoneCh != nil && l.doneCh != nil && l.connWG != nil
+//@   ensures [queued] c != nil ==> err == nil && typeis(c, *Conn) && ptr(c, *Conn) == msg(l.acceptCh, lastrecv()) && lastrecv() >= old(recvd(l.acceptCh))
+//@   ensures [fail] err != nil ==> c == nil
+//@   ensures [order] c == nil ==> recvd(l.acceptCh) >= old(recvd(l.acceptCh))
+
+// closing a connection removes its own entry only
+//@ func (c *Conn) Close() (err error)
+//@   requires c.listener != nil && c.rAddr != nil && c.buffer != nil && c.doneCh != nil && c.listener.connWG != nil
+//@   option trust_unlocked_close=true
+//@   ensures [removed] !old(closed(c.doneCh)) && closed(c.doneCh) ==> !(addrStr[ref(c.rAddr)] in c.listener.conns)
+//@   ensures [own] forall k string :: {k in c.listener.conns} k != addrStr[ref(c.rAddr)] ==> (k in c.listener.conns) == atlock(k in c.listener.conns) && c.listener.conns[k] == atlock(c.listener.conns[k])
+
 // ---- lock discipline (C19)
 //@ field listener pConn immutable
 //@ field listener readBatchSize immutable
 //@ field listener accepting atomic
-//@ field listener acceptCh immutable
+//@ field listener acceptCh openchan
 //@ field listener doneCh immutable
 //@ field listener acceptFilter immutable
 //@ field listener conns guarded_by connLock
@@ -49,3 +96,4 @@ package udp
 //@ lockset C19: listener, Conn, BatchConn
 
 //@ property C10: Conn.Read, Conn.SetReadDeadline
+//@ property C11: listener.newConn, listener.getConn, listener.dispatchMsg, listener.Accept, Conn.Close
